@@ -14,8 +14,8 @@ static char *mkrun(int c, int n) { char *p = malloc((size_t) n + 1); memset(p, c
 static void build(int core)
 {
     static const char *base[] = { "a", "b", "snap", "pre", "alpha", "beta", "rc", "SNAP", "snapx",
-                                  "0", "1", "2", "10", "007", "2147483647", "2147483648", "4294967295", ".", "-", "_", ".." };
-    static const char *corefr[] = { "a", "snap", "pre", "beta", "rc", "0", "1", "10", "007", "2147483648", "4294967295", ".", "-", "b" };
+                                  "0", "1", "2", "10", "007", "2147483647", "2147483648", "4294967295", ".", "-", "_", "..", "\xae", "\xe9" };      /* two bytes above 0x7f: separators whose distance from an ASCII one exceeds 127 */
+    static const char *corefr[] = { "a", "snap", "pre", "beta", "rc", "0", "1", "10", "007", "2147483648", "4294967295", ".", "-", "b", "\xae" };
     NFR = 0;
     if (core) { for (unsigned i = 0; i < sizeof corefr / sizeof *corefr; i++) FR[NFR++] = corefr[i]; return; }
     for (unsigned i = 0; i < sizeof base / sizeof *base; i++) FR[NFR++] = base[i];
